@@ -3,9 +3,7 @@
 package core
 
 import (
-	"errors"
 	"fmt"
-	"io"
 	"os"
 	"strconv"
 )
@@ -90,8 +88,8 @@ func (k *Keys) readInputFiltered() (keys []byte, err error) {
 	buf := make([]byte, keyScanBufSize)
 
 	read, err := Stdin.Read(buf)
-	if err != nil && errors.Is(err, io.EOF) {
-		return
+	if err != nil && read == 0 {
+		return nil, err
 	}
 
 	// Always attempt to extract cursor position info.
